@@ -453,7 +453,9 @@ class C07(Check):
                  ("get_modified_time", "metadata/inflight"),
                  ("delete_file", "metadata/inflight"), ("list_files", "metadata/inflight"),
                  ("exists", "metadata/inflight")]
-        for meth, pre in modes:
+        for meth, pre, errkind in [(m_, p_, k_) for (m_, p_) in modes for k_ in ("generic", "notfound")]:
+            if errkind == "notfound" and meth in ("list_files", "exists", "delete_file"):
+                continue
             for persistent in (False, True):
                 def one(h: history.History, ip: Interposer, store: Any, rng: Any) -> None:
                     sc = build(h, rng)
@@ -467,6 +469,10 @@ class C07(Check):
                             state["n"] += 1
                             if persistent or state["n"] == 1:
                                 fired.append(o.brief())
+                                if errkind == "notfound":
+                                    # listed a moment ago, "not found" now (the marker's transaction just ended, or a
+                                    # listing that runs ahead of the object): nothing is known about the file it protects
+                                    raise FileNotFoundError(2, "No such file or directory (injected)", o.path)
                                 if case["backend"] == "s3":
                                     raise client_error("AccessDenied", "Op", 403)
                                 raise OSError("injected marker fault")
@@ -478,11 +484,11 @@ class C07(Check):
                         ip.before.remove(hook)
                     if fired:
                         res.count("faults_fired")
-                        res.key(["marker", case["backend"], meth, persistent])
+                        res.key(["marker", case["backend"], meth, errkind, persistent])
                     else:
                         res.count("marker_fault_not_reached")
-                    self._judge(h, sc, before, ok, err, res, f"marker-{meth}",
-                                {"backend": case["backend"], "marker_op": meth, "persistent": persistent,
+                    self._judge(h, sc, before, ok, err, res, f"marker-{meth}" + ("-notfound" if errkind == "notfound" else ""),
+                                {"backend": case["backend"], "marker_op": meth, "error": errkind, "persistent": persistent,
                                  "fired": fired[:3]})
 
                 self._with_table(case, one)
